@@ -195,18 +195,20 @@ Print Assumptions C07_ssdp_wellformed.
 (* mDNS / LLMNR queries: frame level (group address, multicast MAC since df36fdf, LLMNR group and PTR type
    since fcbed9b); the question bytes are handled by C07_mdns_query_wellformed below *)
 Theorem C07_mdns_query_frame : forall c name,
-  mac_ok (host_mac c) -> ip4_ok (host_ip4 c) -> bytes_ok (dns_name name) -> (length (dns_name name) <= 1400)%nat ->
+  mac_ok (host_mac c) -> ip4_ok (host_ip4 c) -> dns_pack_ok name = true ->
+  bytes_ok (dns_wire_name name) -> (length (dns_wire_name name) <= 1400)%nat ->
   exists fr, send_mdns_query c name = Ok [fr] /\
     wf_udp4 (host_mac c) (mac_of_mcast4 [224;0;0;251]) (host_ip4 c) [224;0;0;251] 5353 5353
-      (beq (dns_query 0 0 (dns_name name) 255 255)) true fr = true.
+      (beq (dns_query 0 0 (dns_wire_name name) 255 255)) true fr = true.
 Proof. exact mdns_query_frame. Qed.
 Print Assumptions C07_mdns_query_frame.
 
 Theorem C07_llmnr_query_frame : forall c name,
-  mac_ok (host_mac c) -> ip4_ok (host_ip4 c) -> bytes_ok (dns_name name) -> (length (dns_name name) <= 1400)%nat ->
+  mac_ok (host_mac c) -> ip4_ok (host_ip4 c) -> dns_pack_ok name = true ->
+  bytes_ok (dns_wire_name name) -> (length (dns_wire_name name) <= 1400)%nat ->
   exists fr, send_llmnr_query c name = Ok [fr] /\
     wf_udp4 (host_mac c) (mac_of_mcast4 [224;0;0;252]) (host_ip4 c) [224;0;0;252] 5355 5355
-      (beq (dns_query 0 0 (dns_name name) 12 255)) true fr = true.
+      (beq (dns_query 0 0 (dns_wire_name name) 12 255)) true fr = true.
 Proof. exact llmnr_query_frame. Qed.
 Print Assumptions C07_llmnr_query_frame.
 
@@ -246,8 +248,15 @@ Theorem C07_icmp6_send_any_message : forall c sm si dm di t cd q junk,
   mac_ok (host_mac c) -> mac_ok dm -> ip6_ok si -> ip6_ok di -> t < 256 -> cd < 256 ->
   bytes_ok q -> (length q <= 1464)%nat -> length junk = EthMaxSize ->
   exists fr, icmp6_send_packet c (sm, si) (dm, di) (t :: cd :: 0 :: 0 :: q) junk = Ok [fr] /\
-    wf_icmp6 (host_mac c) dm si di t cd (beq q) fr = true.
+    wf_icmp6 (host_mac c) dm si di t cd (beq q) fr = true /\
+    (* the hop limit byte is exactly: 255 towards link-local destinations and for Neighbor Discovery types
+       133..137 (since fix 5a5618d), 64 otherwise *)
+    nth 21 fr 0 = icmp6_hop di t.
 Proof. exact icmp6_generic. Qed.
+
+Theorem C07_icmp6_hop_rule : forall di t, ip6_ok di -> t < 256 -> icmp6_hop_ok t di (icmp6_hop di t) = true.
+Proof. exact icmp6_hop_ok_holds. Qed.
+Print Assumptions C07_icmp6_hop_rule.
 Print Assumptions C07_icmp6_send_any_message.
 
 (* ICMP6SendRouterAdvertisement after fix 6efe826: type 134, code 0, host MAC + LLA as source, requested
@@ -300,25 +309,41 @@ Theorem C07_dns_question_decodes_back : forall name qt qc,
 Proof. exact dns_query_decodes. Qed.
 Print Assumptions C07_dns_question_decodes_back.
 
-(* SendMDNSQuery, full: 224.0.0.251:5353, 01:00:5e:00:00:fb, question = (name, ANY, ANY) *)
+(* SendMDNSQuery / SendLLMNRQuery over ALL names.  dns_pack_ok: at most 254 bytes, ends with '.', labels of
+   1..63 bytes (or the root "."): what RFC 1035 can encode and dnsmessage accepts.  Such a name is sent and the
+   question decodes back to exactly its labels (ANY / PTR, class ANY); every other name is refused: no frame,
+   no panic (a name over 255 bytes panicked before fix 71d97b6). *)
 Theorem C07_mdns_query_wellformed : forall c name,
-  mac_ok (host_mac c) -> ip4_ok (host_ip4 c) -> bytes_ok name -> (length name <= 250)%nat ->
-  Forall label_ok (split_dots name []) ->
+  mac_ok (host_mac c) -> ip4_ok (host_ip4 c) -> bytes_ok name -> dns_pack_ok name = true ->
   exists fr, send_mdns_query c name = Ok [fr] /\
     wf_udp4 (host_mac c) (mac_of_mcast4 [224;0;0;251]) (host_ip4 c) [224;0;0;251] 5353 5353
-      (wf_dns_query None (split_dots name []) 255 255) true fr = true.
+      (wf_dns_query None (query_labels name) 255 255) true fr = true.
 Proof. exact mdns_query_wf. Qed.
 Print Assumptions C07_mdns_query_wellformed.
 
-(* SendLLMNRQuery, full: 224.0.0.252:5355, 01:00:5e:00:00:fc, question = (name, PTR, ANY) *)
+Theorem C07_mdns_query_refuses_unencodable : forall c name,
+  dns_pack_ok name = false -> send_mdns_query c name = Ok [].
+Proof. exact mdns_query_refuses. Qed.
+Print Assumptions C07_mdns_query_refuses_unencodable.
+
 Theorem C07_llmnr_query_wellformed : forall c name,
-  mac_ok (host_mac c) -> ip4_ok (host_ip4 c) -> bytes_ok name -> (length name <= 250)%nat ->
-  Forall label_ok (split_dots name []) ->
+  mac_ok (host_mac c) -> ip4_ok (host_ip4 c) -> bytes_ok name -> dns_pack_ok name = true ->
   exists fr, send_llmnr_query c name = Ok [fr] /\
     wf_udp4 (host_mac c) (mac_of_mcast4 [224;0;0;252]) (host_ip4 c) [224;0;0;252] 5355 5355
-      (wf_dns_query None (split_dots name []) 12 255) true fr = true.
+      (wf_dns_query None (query_labels name) 12 255) true fr = true.
 Proof. exact llmnr_query_wf. Qed.
 Print Assumptions C07_llmnr_query_wellformed.
+
+Theorem C07_llmnr_query_refuses_unencodable : forall c name,
+  dns_pack_ok name = false -> send_llmnr_query c name = Ok [].
+Proof. exact llmnr_query_refuses. Qed.
+Print Assumptions C07_llmnr_query_refuses_unencodable.
+
+(* what dns_pack_ok means in the spec's terms *)
+Theorem C07_pack_ok_labels : forall name, dns_pack_ok name = true -> is_root name = false ->
+  (length name <= 254)%nat /\ Forall label_ok (split_dots name []).
+Proof. exact pack_ok_labels. Qed.
+Print Assumptions C07_pack_ok_labels.
 
 (* SendNBNSQuery, full: the question name is the RFC 1001 encoding of the 16-byte padded name, type NB, class IN *)
 Theorem C07_nbns_query_wellformed : forall c sm si dm di seq name junk,
@@ -328,6 +353,12 @@ Theorem C07_nbns_query_wellformed : forall c sm si dm di seq name junk,
     wf_udp4 (host_mac c) dm si di 137 137 (wf_dns_query (Some seq) [nb_label name] 32 1) false fr = true.
 Proof. exact nbns_query_wf. Qed.
 Print Assumptions C07_nbns_query_wellformed.
+
+(* ... and a name that does not fit the 16 octets is refused (since fix 6d50a23; it used to be cut to 15 octets) *)
+Theorem C07_nbns_query_refuses_long_name : forall c src dst seq name junk,
+  (16 < length name)%nat -> send_nbns_query c src dst seq name junk = Ok [].
+Proof. exact nbns_query_refuses. Qed.
+Print Assumptions C07_nbns_query_refuses_long_name.
 
 (* SendNBNSNodeStatus, full: broadcast, name "*", type NBSTAT *)
 Theorem C07_nbns_node_status_wellformed : forall c seq junk,
